@@ -67,11 +67,30 @@ def fingerprint(d):
     return h.hexdigest()
 
 
+# The database has a dotted stem, and two other databases live next to it whose names are what a sloppy derivation of
+# the backup name would produce ("t.db", "t.v2.db" minus one component): they must never be touched.
+DBNAME = "t.v2.db"
+NEIGHBOURS = {"t.db": "neighbour one", "t.v2_backup": "neighbour two", "t_backup.db": "neighbour three"}
+
+
+def neighbours_changed(d):
+    bad = []
+    for name, text in NEIGHBOURS.items():
+        fp = os.path.join(d, name)
+        try:
+            with open(fp, "rb") as fh:
+                if fh.read() != text.encode():
+                    bad.append(name + ": content changed")
+        except OSError:
+            bad.append(name + ": gone")
+    return bad
+
+
 def make_s0(base, flow):
     """Creates the initial database directory; returns (dir, reference content)."""
     s0 = Path(base) / "s0"
     s0.mkdir()
-    w = new_ctx(db_path=s0 / "t.db")
+    w = new_ctx(db_path=s0 / DBNAME)
     for i in range(5):
         w.add_page("P%d" % i, 0, "orig%d " % i + "x" * 200)
     w.add_page("Template:a", 10, "orig template")
@@ -92,12 +111,14 @@ def make_s0(base, flow):
     else:
         w.close_db_conn()
     (s0 / "ov.json").write_text(json.dumps(ov))
+    for name, text in NEIGHBOURS.items():
+        (s0 / name).write_text(text)
     return s0
 
 
 def content(d):
     """Opens the directory's database with a new context (this performs any pending restore)."""
-    w = new_ctx(db_path=Path(d) / "t.db")
+    w = new_ctx(db_path=Path(d) / DBNAME)
     try:
         integ = [r[0] for r in w.db_conn.execute("PRAGMA integrity_check")]
         pages = sorted((p.title, p.namespace_id, p.body, p.redirect_to) for p in w.get_all_pages())
@@ -148,7 +169,7 @@ def phase1(work):
     from wikitextprocessor.dumpparser import analyze_and_overwrite_pages
 
     Wtp.get_page.cache_clear()   # same executed lines in every realisation
-    w = new_ctx(db_path=Path(work) / "t.db")
+    w = new_ctx(db_path=Path(work) / DBNAME)
     analyze_and_overwrite_pages(w, [Path(work) / "ov.json"], True, None)
     w.close_db_conn()
 
@@ -157,7 +178,7 @@ def phase1_two(work):
     from wikitextprocessor import Wtp
 
     Wtp.get_page.cache_clear()
-    w = new_ctx(db_path=Path(work) / "t.db")
+    w = new_ctx(db_path=Path(work) / DBNAME)
     w.backup_db()
     w.add_page("Q1", 0, "written after the first backup")
     w.db_conn.commit()
@@ -175,8 +196,8 @@ def phase1_reader(work):
     tr = sys.gettrace()
     sys.settrace(None)
     Wtp.get_page.cache_clear()
-    w = new_ctx(db_path=Path(work) / "t.db")
-    r = new_ctx(db_path=Path(work) / "t.db")
+    w = new_ctx(db_path=Path(work) / DBNAME)
+    r = new_ctx(db_path=Path(work) / DBNAME)
     w.add_page(*READER_PAGES[0][:3])
     w.db_conn.commit()
     it = r.get_all_pages()
@@ -204,8 +225,8 @@ def phase1_close(kind):
         tr = sys.gettrace()
         sys.settrace(None)
         Wtp.get_page.cache_clear()
-        w = new_ctx(db_path=Path(work) / "t.db")
-        r = new_ctx(db_path=Path(work) / "t.db") if kind == "other" else None
+        w = new_ctx(db_path=Path(work) / DBNAME)
+        r = new_ctx(db_path=Path(work) / DBNAME) if kind == "other" else None
         for pg in CLOSE_PAGES:
             w.add_page(*pg[:3])
         w.db_conn.commit()
@@ -222,7 +243,7 @@ def phase1_close(kind):
 
 
 def phase2(work):
-    w = new_ctx(db_path=Path(work) / "t.db")
+    w = new_ctx(db_path=Path(work) / DBNAME)
     w.close_db_conn()
 
 
@@ -245,6 +266,9 @@ def judge(acc, case, img_dir, want, also=None):
             return None
         if integ != ["ok"]:
             acc.violation("integrity_check", case, integ[:3], ["ok"])
+        nb = neighbours_changed(tmp)
+        if nb:
+            acc.violation("other_files_of_the_directory_untouched", case, nb, "unchanged")
         if pages != want and (also is None or pages != also):
             gt = {p[0]: p[2] for p in pages}
             wt = {p[0]: p[2] for p in want}
@@ -266,7 +290,13 @@ def work(payload, skip, report):
     base = scratch_dir("c11")
     try:
         s0 = make_s0(base, flow)
-        _, want = content_copy(s0, base)
+        try:
+            _, want = content_copy(s0, base)
+        except Exception as e:
+            acc.case()
+            acc.violation("database_opens", {"flow": flow.get("name", str(flow)), "step": "the initial database, nothing killed yet"},
+                          type(e).__name__ + ": " + str(e)[:120], "opens")
+            return acc
         wk = Path(base) / "work"
         shutil.copytree(s0, wk)
         t1 = Tracer(str(wk), base, "p1")
